@@ -395,3 +395,7 @@ HYPOTHESES = ['good_field F (C03): field_theory of the dictionary with Leibniz e
               'sw_killed_by F a b (m * r): every curve point is killed by m r (#E = h r by point counting + Lagrange for m = h; exponent of E(F_q) divides h_eff r for the optimised maps)',
               'te_law_complete: the Edwards denominators never vanish on curve points (C03_te_complete: a square, d non-square)',
               'C12_psi_test_sound_partial only: psi(P) = [s]P implies r P = O on the curve (eprint 2021/1130, 2022/352)']
+
+
+# associativity of both affine laws is PROVED (coq/Assoc, pinned in Props/Assoc.v): the headline C12/Link statements without that premise
+EXTRA_PROP_FILES = ['Assoc']
